@@ -83,6 +83,19 @@ def _skipping_guards(f, node):
     return out
 
 
+def _is_pumping_test(t: ast.AST, pol: bool, key: str) -> bool:
+    """The guard says the parent of `key` does not pump yet (so the code under it is skipped
+    exactly for rules whose parent already pumps)."""
+    txt = norm(t)
+    if not pol and txt in (f"self.is_pumping({key}.parent)",):
+        return True
+    if pol and _is_none_test(t, f"self._function[{key}.parent]", True):
+        return True
+    if not pol and _is_none_test(t, f"self._function[{key}.parent]", False):
+        return True
+    return False
+
+
 def _top_index(f, node) -> int:
     """Index in f.body of the top-level statement that contains node."""
     for i, st in enumerate(f.body):
@@ -131,11 +144,13 @@ def _gt(t: ast.AST) -> Optional[Tuple[str, str]]:
 
 
 # ------------------------------------------------------------------ F1: recording
-def f1_recording(ctx) -> None:
+def f1_recording(ctx, rule: str = "F1", universe: bool = False) -> None:
     """Every inserted key is recorded: `_rules.append(key)` and `_shifts.append(initial shifts
     of that key)` run for every call (a skip is tolerated only for a key that is already there
     *as a whole*), the rule's index is its position in `_rules`, and the queue is processed
-    before returning."""
+    before returning.  For the function values (C03) a rule whose parent already pumps may be
+    left out -- it can change no value --; for the extractor (universe=True, C11) it may not:
+    `_rules` is also the universe the extractor minimises."""
     P = ctx.P
     m = P.need_method(TM, "add_rule_key", own=True)
     f = m.node
@@ -146,34 +161,37 @@ def f1_recording(ctx) -> None:
     key = params[0]
     rec = [c for c in _calls(f, "self._rules.append") if len(c.args) == 1 and norm(c.args[0]) == key]
     if len(rec) != 1:
-        ctx.violation("F1", f, f"add_rule_key must record its key exactly once in self._rules (found {len(rec)} appends of `{key}`)", construct=f"{TM}.add_rule_key record")
+        ctx.violation(rule, f, f"add_rule_key must record its key exactly once in self._rules (found {len(rec)} appends of `{key}`)", construct=f"{TM}.add_rule_key record")
         return
     sh = _calls(f, "self._shifts.append")
     if len(sh) != 1 or len(sh[0].args) != 1:
-        ctx.violation("F1", f, "add_rule_key must append exactly one list of shifts per recorded rule (the two lists are indexed by the same rule index)",
+        ctx.violation(rule, f, "add_rule_key must append exactly one list of shifts per recorded rule (the two lists are indexed by the same rule index)",
                       construct=f"{TM}.add_rule_key shifts")
         return
     for what, call in (("the key", rec[0]), ("its shifts", sh[0])):
         bad = False
         for t, pol in _skipping_guards(f, call):
+            if not universe and _is_pumping_test(t, pol, key):
+                continue
             whole = any(isinstance(x, ast.Compare) and len(x.ops) == 1 and isinstance(x.ops[0], (ast.In, ast.NotIn)) and norm(x.left) == key for x in ast.walk(t))
             if whole:
                 continue
             bad = True
-            ctx.violation("F1", t, f"{what} is recorded only under `{norm(t)}` ({'holds' if pol else 'fails'}): a rule that is left out never contributes, so the answer "
-                          "depends on more than the set of inserted rules (a projection of the key does not identify the rule: shifts and bucket differ)")
+            ctx.violation(rule, t, f"{what} is recorded only under `{norm(t)}` ({'holds' if pol else 'fails'}): a rule that is left out never contributes, so the answer "
+                          "depends on more than the set of inserted rules (a projection of the key does not identify the rule: shifts and bucket differ)"
+                          + ("; the recorded rules are also the universe the extractor chooses from" if universe else ""))
         if not bad:
-            ctx.ok("F1", f"add_rule_key records {what} for every call")
+            ctx.ok(rule, f"add_rule_key records {what} for every call")
     v = _value_of(f, sh[0].args[0])
     ok = isinstance(v, ast.Call) and norm(v.func) == "self._compute_shift" and [norm(a) for a in v.args] == [f"{key}.key", f"{key}.shifts"] and not v.keywords
     if ok:
-        ctx.ok("F1", "the shifts recorded are _compute_shift(key.key, key.shifts) of the same key")
+        ctx.ok(rule, "the shifts recorded are _compute_shift(key.key, key.shifts) of the same key")
     else:
-        ctx.violation("F1", sh[0], f"the shifts recorded for the rule are `{norm(v)[:80]}`, not self._compute_shift({key}.key, {key}.shifts)")
+        ctx.violation(rule, sh[0], f"the shifts recorded for the rule are `{norm(v)[:80]}`, not self._compute_shift({key}.key, {key}.shifts)")
     if C.stmt_of(rec[0]) in f.body and C.stmt_of(sh[0]) in f.body:
-        ctx.ok("F1", "_rules and _shifts grow in the same block (same index for a rule and its shifts)")
+        ctx.ok(rule, "_rules and _shifts grow in the same block (same index for a rule and its shifts)")
     else:
-        ctx.violation("F1", sh[0], "_rules.append and _shifts.append are no longer in the function's top-level block: the two lists can get out of step")
+        ctx.violation(rule, sh[0], "_rules.append and _shifts.append are no longer in the function's top-level block: the two lists can get out of step")
     # the rule's index
     regs = [c for c in walk_local(f) if isinstance(c, ast.Call) and isinstance(c.func, ast.Attribute) and c.func.attr == "append"
             and norm(c.func.value).startswith(("self._rules_pumping_class[", "self._rules_using_class[", "self._processing_queue"))]
@@ -189,25 +207,27 @@ def f1_recording(ctx) -> None:
         want = {"len(self._rules)": 1, "1": -1} if after else {"len(self._rules)": 1}
         n_idx += 1
         if a == want:
-            ctx.ok("F1", f"`{norm(c)[:60]}`: the index is the position of the rule just recorded")
+            ctx.ok(rule, f"`{norm(c)[:60]}`: the index is the position of the rule just recorded")
         else:
-            ctx.violation("F1", c, f"`{norm(idx)}` = `{norm(v)}` is not the position of the rule just recorded ({'len(self._rules) - 1 after' if after else 'len(self._rules) before'} the append)")
+            ctx.violation(rule, c, f"`{norm(idx)}` = `{norm(v)}` is not the position of the rule just recorded ({'len(self._rules) - 1 after' if after else 'len(self._rules) before'} the append)")
     if n_idx < 3:
-        ctx.floor("F1", 99)
+        ctx.floor(rule, 99)
     # the queue is processed before returning
     pq = _calls(f, "self._process_queue")
     tail = [st for st in f.body if not isinstance(st, ast.Pass)]
     last = tail[-1]
     def _whole_key_only(node) -> bool:
         for t, _pol in _skipping_guards(f, node):
+            if _is_pumping_test(t, _pol, key):
+                continue
             if not any(isinstance(x, ast.Compare) and len(x.ops) == 1 and isinstance(x.ops[0], (ast.In, ast.NotIn)) and norm(x.left) == key for x in ast.walk(t)):
                 return False
         return True
 
     if pq and any(C.stmt_of(c) is last for c in pq) and _whole_key_only(pq[-1]):
-        ctx.ok("F1", "add_rule_key ends by processing the queue unconditionally")
+        ctx.ok(rule, "add_rule_key ends by processing the queue unconditionally")
     else:
-        ctx.violation("F1", f, "add_rule_key must end with an unconditional self._process_queue(): the status is queried after every insertion", construct=f"{TM}.add_rule_key process")
+        ctx.violation(rule, f, "add_rule_key must end with an unconditional self._process_queue(): the status is queried after every insertion", construct=f"{TM}.add_rule_key process")
 
 
 # ------------------------------------------------------------------ F2: initial shifts
@@ -1052,7 +1072,7 @@ def f12_gap_search(ctx) -> None:
 
 
 # ------------------------------------------------------------------ F13: the database hands every key to the table
-def f13_database_insertion(ctx) -> None:
+def f13_database_insertion(ctx, rule_id: str = "F13", universe: bool = False) -> None:
     """RuleDBForest.add gives the table the key of the rule it is handed (and of its reverse
     forms) on every call: two rules with the same (start, ends) can have different shifts,
     buckets and reverse forms, so 'seen before' by labels is no reason to skip."""
@@ -1064,7 +1084,7 @@ def f13_database_insertion(ctx) -> None:
     rule = ps[2] if len(ps) >= 3 else "rule"
     ins = _calls(f, "self.table_method.add_rule_key")
     if len(ins) != 1 or len(ins[0].args) != 1:
-        ctx.violation("F13", f, "RuleDBForest.add must insert keys through exactly one self.table_method.add_rule_key(<key>) site", construct="RuleDBForest.add insertion")
+        ctx.violation(rule_id, f, "RuleDBForest.add must insert keys through exactly one self.table_method.add_rule_key(<key>) site", construct="RuleDBForest.add insertion")
         return
     c = ins[0]
     loops = [l for l in C.enclosing_loops(f, c) if isinstance(l, ast.For)]
@@ -1074,16 +1094,17 @@ def f13_database_insertion(ctx) -> None:
     kv = norm(c.args[0])
     harmless = {(f"self.table_method.is_pumping({kv}.parent)", False), (f"self.is_verified({kv}.parent)", False)}
     inner = [(norm(t), pol) for t, pol in _skipping_guards(f, c) if any(x is t or any(y is t for y in ast.walk(x)) for x in ast.walk(lp))]
-    inner = [g for g in inner if g not in harmless]     # a rule for a class that already pumps changes no value
+    if not universe:
+        inner = [g for g in inner if g not in harmless]     # a rule for a class that already pumps changes no value
     outer = [(norm(t), pol) for t, pol in _skipping_guards(f, lp)]
     if not inner and not outer:
-        ctx.ok("F13", "every new key is handed to the table, on every call")
+        ctx.ok(rule_id, "every new key is handed to the table, on every call")
     else:
-        ctx.violation("F13", c, f"keys reach the table only under {inner + outer}: a rule whose labels were seen before can still have other shifts, another bucket or reverse "
+        ctx.violation(rule_id, c, f"keys reach the table only under {inner + outer}: a rule whose labels were seen before can still have other shifts, another bucket or reverse "
                       "forms, and is lost")
     keys = _value_of(f, lp.iter) if isinstance(lp.iter, ast.Name) else lp.iter
     first = keys.elts[0] if isinstance(keys, ast.List) and keys.elts else None
     if first is not None and isinstance(first, ast.Call) and norm(first.func) == f"{rule}.forest_key":
-        ctx.ok("F13", f"the list of new keys starts with the forest key of the rule handed in ({rule})")
+        ctx.ok(rule_id, f"the list of new keys starts with the forest key of the rule handed in ({rule})")
     else:
-        ctx.violation("F13", lp, f"the keys inserted must start with {rule}.forest_key(...), the key of the rule handed in; found `{norm(keys)[:80]}`")
+        ctx.violation(rule_id, lp, f"the keys inserted must start with {rule}.forest_key(...), the key of the rule handed in; found `{norm(keys)[:80]}`")
